@@ -219,8 +219,8 @@ impl Prop for C04 {
     }
     fn budget(&self, tier: Tier) -> Budget {
         match tier {
-            Tier::Quick => Budget { cases: 16_000, max_tape: 640 },
-            Tier::Thorough => Budget { cases: 320_000, max_tape: 1024 },
+            Tier::Quick => Budget { cases: 200_000, max_tape: 640 },
+            Tier::Thorough => Budget { cases: 3_000_000, max_tape: 1024 },
         }
     }
     fn run_tape(&self, tape: &[u8], _tier: Tier, rec: &mut Recorder) -> Result<(), Failure> {
